@@ -56,7 +56,7 @@ import (
 	"verifharness/internal/wk"
 )
 
-func init() { wk.CompanyStart = companyStart }
+func init() { wk.CompanyStart = companyStart; wk.CompanyBatch = companyBatch }
 
 // companyItem is one family of self-checking programs. build returns, for the
 // n-th program of the family, its source, the host bindings it needs and the
@@ -483,6 +483,46 @@ func companyStart(k int, seed int64, prop string) func() wk.CompanyReport {
 		wg.Wait()
 		return rep
 	}
+}
+
+// companyBatch: k goroutines, released together, execute rounds programs each (phases company-only*:
+// the battery alone, judged by its own checks and, in the race build, by the race detector - two
+// executions in environments and trees of their own that touch one memory location unsynchronised
+// share hidden mutable state). Every goroutine starts at another item, so all pairs of items overlap.
+func companyBatch(k, rounds int, seed int64, prop string) wk.CompanyReport {
+	companyCalibrate()
+	rep := wk.CompanyReport{PerItem: map[string]int{}}
+	var mu sync.Mutex
+	var wg sync.WaitGroup
+	start := make(chan struct{})
+	for g := 0; g < k; g++ {
+		wg.Add(1)
+		go func(g int) {
+			defer wg.Done()
+			rng := rand.New(rand.NewSource(seed + int64(g)*104729))
+			per := map[string]int{}
+			var mis []wk.CompanyMismatch
+			<-start
+			for i := 0; i < rounds; i++ {
+				it := &companyBattery[(i+g*3)%len(companyBattery)]
+				msg, src := companyRunItem(it, rng.Int63n(1<<40))
+				per[it.name]++
+				if msg != "" && len(mis) < 10 {
+					mis = append(mis, wk.CompanyMismatch{Item: it.name, Detail: "a program executed by a goroutine of its own, in an environment and a tree of its own, while seven other such executions ran in the process: " + msg, Src: src, Judged: true})
+				}
+			}
+			mu.Lock()
+			rep.Runs += rounds
+			for n, c := range per {
+				rep.PerItem[n] += c
+			}
+			rep.Mismatches = append(rep.Mismatches, mis...)
+			mu.Unlock()
+		}(g)
+	}
+	close(start)
+	wg.Wait()
+	return rep
 }
 
 // companyRunItem executes the n-th program of an item; a Go panic out of the
